@@ -387,14 +387,14 @@ def _token_statuses() -> tuple[int, list[int]]:
     return missing, sorted(sts)
 
 
-def _coerce_status() -> int | None:
+def _coerce_table() -> dict[str, int | None]:
     import builtins
 
     ts = _tree(f"{SRV}/_app_stream.py")
     st = _module("vgi_rpc.http.server._app_stream")
     fn = _func(ts, "_run_http_exchange_turn")
     t = _innermost_try(fn, lambda c: _callee(c) == "_coerce_input_batch")
-    return _handler_table(st, t, [("typeError", builtins.TypeError)], "coerce")["typeError"]
+    return _handler_table(st, t, [("mismatch", builtins.TypeError), ("badNames", builtins.UnicodeDecodeError)], "coerce")
 
 
 def _fail_statuses() -> dict[str, int]:
@@ -448,7 +448,7 @@ def emit() -> dict[str, str]:
     mw = _middleware_order()
     shapes = _middleware_shapes()
     missing, toks = _token_statuses()
-    coerce = _coerce_status()
+    coerce = _coerce_table()
     fails = _fail_statuses()
     uses = _set_error_response_uses_status() and all(g[2] for g in guards.values())
 
@@ -512,9 +512,8 @@ def authReject : Refusal := {_ref(shapes["authReject"])}
 /-- `/exchange`: missing state token; every `_RpcHttpError` status used while opening / resolving tokens -/
 def missingTokenStatus : Nat := {missing}
 def tokenStatuses : List Nat := {toks}
-/-- status of the handler guarding `_coerce_input_batch` for a `TypeError` (`none` = not caught) -/
-def coerceStatus : Option Nat := {'none' if coerce is None else f'some {coerce}'}
-
+/-- the try guarding `_coerce_input_batch` in `_run_http_exchange_turn`: `TypeError` (mismatch), `UnicodeDecodeError` (names) -/
+{_tbl("coerce", "ParamDefect", coerce)}
 /-- in-band failure statuses (before `_set_http_status`) -/
 def unaryFail : Nat := {fails["unaryFail"]}
 def initFail : Nat := {fails["initFail"]}
@@ -551,7 +550,7 @@ def tables : Tables where
   authReject := authReject
   missingTokenStatus := missingTokenStatus
   tokenStatuses := tokenStatuses
-  coerceStatus := coerceStatus
+  coerce := coerce
   unaryFail := unaryFail
   initFail := initFail
   exchangeFail := exchangeFail
